@@ -345,7 +345,7 @@ Definition mem_level_str (level_sites : option nat) (m : mem_lmem) (sev : nat) :
    already assigned), m_own m = the input.  First the header (nothing is written)... *)
 Inductive mem_head_res :=
 | HdBad (r : mem_lrec)                   (* onMalformed; the fields set so far stay until Release clears them *)
-| HdPanic (site : N)
+| HdPanic (site : N)                     (* not produced any more: the first-token slice panic was repaired (C09) *)
 | HdOk (r : mem_lrec) (off len : nat).   (* header fields set; the rest [off, off+len) is the message *)
 
 Definition mem_first_is (c : N) (s : bytes) : bool :=
@@ -359,7 +359,7 @@ Definition mem_parse_head (level_sites : option nat) (m : mem_lmem) (r : mem_lre
     match mem_next_field own 0 n with
     | None => HdBad r
     | Some e =>
-      if Nat.ltb e 2 then HdPanic 4 (* val[len(val)-2:] with len(val) = 1 *)
+      if Nat.ltb e 2 then HdBad r (* !strings.HasSuffix(val, ">1"): a first token shorter than two bytes (after C09's repair; it used to panic) *)
       else
         let val := firstn e own in
         if negb (bytes_eqb (skipn (e - 2) val) [62; 49]) then HdBad r else
@@ -379,14 +379,14 @@ Definition mem_parse_head (level_sites : option nat) (m : mem_lmem) (r : mem_lre
         end
     end.
 
-(* ... then the message: cut at the limit, cleaned IN PLACE when the record is long, Unescaped set.
+(* ... then the message: cut at the limit, cleaned IN PLACE when it was cut or the record is long, Unescaped set.
    Returns memory, struct, and whether the message overflowed. *)
 Definition mem_parse_msg (pa : mem_params) (m : mem_lmem) (r3 : mem_lrec) (off len : nat)
   : mem_res (mem_lmem * mem_lrec * bool) :=
   let n := length (m_own m) in
   let over := p_max_msg pa <? N.of_nat len in
   let len1 := if over then N.to_nat (p_max_msg pa) else len in
-  mem_rbind (if (p_max_rec pa <=? N.of_nat n) then mem_clean_utf8 m EOwn off len1 else ROk (m, len1)) (fun ml =>
+  mem_rbind (if over || (p_max_rec pa <=? N.of_nat n) then mem_clean_utf8 m EOwn off len1 else ROk (m, len1)) (fun ml =>
     let m' := fst ml in
     let len2 := snd ml in
     let msg := firstn len2 (skipn off (m_own m')) in
